@@ -356,3 +356,10 @@ def jobs(tier="quick", seed=0):
               expect_cover=("enumerated",))
     yield Job("C09/label-sliding/later-patch-bounded", later_patch_bounded(tier, seed), kind="B",
               func="gtirb_rewriting.rewriting:RewritingContext.apply (deletions + a later patch naming a label that slid)")
+    # "applying a set of modifications in one apply() gives the same module as applying them one at a time": inside one block that is the
+    # offset bookkeeping of _apply_modifications -- every modification lands at its requested offset shifted by exactly what the earlier
+    # ones inserted and removed, i.e. where a one-at-a-time application (earlier ones already applied) would put it
+    from . import kernel_applymods
+    for j in kernel_applymods.jobs(tier, seed):
+        j.id = "C09/" + j.id
+        yield j
